@@ -18,126 +18,11 @@ package main
 
 import (
 	"fmt"
-	"hash/adler32"
-	"hash/crc32"
 
 	"verif/mc"
 	dm "verif/ref/dm"
+	"verif/ref/twin"
 )
-
-type twinDiff struct {
-	name string
-	// apply changes blk in place around position p (0 <= p, p+5 <= len) and reports whether it did
-	apply func(blk []byte, p int) bool
-}
-
-// crcCollide finds a 5-byte xor pattern d (d[0] != 0) at position p that leaves crc(tab) of the
-// block unchanged: CRC is affine, so the 40 single-bit patterns are combined by elimination.
-func crcCollide(tab *crc32.Table, n, p int) []byte {
-	zero := make([]byte, n)
-	base := crc32.Checksum(zero, tab)
-	type row struct {
-		v    uint32
-		bits uint64
-	}
-	var rows []row
-	for i := 0; i < 40; i++ {
-		b := make([]byte, n)
-		b[p+i/8] = 1 << uint(i%8)
-		rows = append(rows, row{crc32.Checksum(b, tab) ^ base, 1 << uint(i)})
-	}
-	// Gaussian elimination over GF(2): 40 vectors in a 32-dimensional space have a dependency
-	var basis [32]*row
-	for i := range rows {
-		r := rows[i]
-		for bit := 31; bit >= 0 && r.v != 0; bit-- {
-			if r.v>>uint(bit)&1 == 0 {
-				continue
-			}
-			if basis[bit] == nil {
-				rr := r
-				basis[bit] = &rr
-				r.v = 0
-				r.bits = 0
-				break
-			}
-			r.v ^= basis[bit].v
-			r.bits ^= basis[bit].bits
-		}
-		if r.v == 0 && r.bits != 0 {
-			d := make([]byte, 5)
-			for k := 0; k < 40; k++ {
-				if r.bits>>uint(k)&1 == 1 {
-					d[k/8] |= 1 << uint(k%8)
-				}
-			}
-			return d
-		}
-	}
-	return nil
-}
-
-func twinDiffs(n int) []twinDiff {
-	crc := func(name string, tab *crc32.Table) twinDiff {
-		return twinDiff{name, func(blk []byte, p int) bool {
-			d := crcCollide(tab, len(blk), p)
-			if d == nil {
-				return false
-			}
-			before := crc32.Checksum(blk, tab)
-			for i := range d {
-				blk[p+i] ^= d[i]
-			}
-			if crc32.Checksum(blk, tab) != before {
-				panic("harness: CRC collision construction is wrong")
-			}
-			return true
-		}}
-	}
-	return []twinDiff{
-		{"identical", func(blk []byte, p int) bool { return true }},
-		crc("crc32-ieee", crc32.IEEETable),
-		crc("crc32-castagnoli", crc32.MakeTable(crc32.Castagnoli)),
-		crc("crc32-koopman", crc32.MakeTable(crc32.Koopman)),
-		{"sum+adler", func(blk []byte, p int) bool {
-			if blk[p] == 255 || blk[p+1] < 2 || blk[p+2] == 255 {
-				return false
-			}
-			a, s := adler32.Checksum(blk), 0
-			for _, v := range blk {
-				s += int(v)
-			}
-			blk[p]++
-			blk[p+1] -= 2
-			blk[p+2]++
-			s2 := 0
-			for _, v := range blk {
-				s2 += int(v)
-			}
-			if adler32.Checksum(blk) != a || s != s2 {
-				panic("harness: Adler collision construction is wrong")
-			}
-			return true
-		}},
-		{"xor", func(blk []byte, p int) bool { blk[p] ^= 0x5a; blk[p+3] ^= 0x5a; return true }},
-		{"swap", func(blk []byte, p int) bool {
-			if blk[p] == blk[p+1] {
-				return false
-			}
-			blk[p], blk[p+1] = blk[p+1], blk[p]
-			return true
-		}},
-		{"middle-only", func(blk []byte, p int) bool {
-			if len(blk) < 10 {
-				return false
-			}
-			for i := 4; i < len(blk)-4; i++ {
-				blk[i] ^= byte(i*7 + 1)
-			}
-			return true
-		}},
-	}
-}
 
 // twinCase: blocks b and c of symbol s are near twins under difference kind at placement pl.
 func twinCase(l *mc.Local, s dm.Symbol, b, c, kind, pl int) bool {
@@ -157,24 +42,24 @@ func twinCase(l *mc.Local, s dm.Symbol, b, c, kind, pl int) bool {
 	if len(ic) < n {
 		n = len(ic) // 144x144: blocks of 156 and 155 codewords
 	}
-	twin := make([]byte, len(ic))
-	for k := range twin {
+	tw := make([]byte, len(ic))
+	for k := range tw {
 		if k < len(ib) {
-			twin[k] = data[ib[k]]
+			tw[k] = data[ib[k]]
 		} else {
-			twin[k] = data[ic[k]]
+			tw[k] = data[ic[k]]
 		}
 	}
 	p := []int{0, n/2 - 2, n - 5}[pl]
-	d := twinDiffs(n)[kind]
-	if p < 0 || p+5 > n || !d.apply(twin[:n], p) {
+	d := twin.Diffs()[kind]
+	if p < 0 || p+5 > n || !d.Apply(tw[:n], p) {
 		l.Count("near_twin_not_constructible", 1)
 		return true
 	}
 	for k, i := range ic {
-		data[i] = twin[k]
+		data[i] = tw[k]
 	}
-	name := fmt.Sprintf("blocks %d and %d near twins: %s at %s", b, c, d.name, []string{"the start", "the middle", "the end"}[pl])
+	name := fmt.Sprintf("blocks %d and %d near twins: %s at %s", b, c, d.Name, []string{"the start", "the middle", "the end"}[pl])
 	return eccCompare(l, s, name, data, rcase{Sub: "ecct", Rows: s.Rows, Cols: s.Cols, Vec: name, Index: kind*3 + pl, N: b*16 + c}, true)
 }
 
@@ -197,7 +82,7 @@ func runECCTwins() {
 		func(i int) string { j := jobs[i]; return fmt.Sprint(dm.Symbols[j.s], " blocks ", j.b, j.c) },
 		func(l *mc.Local, i int) {
 			j := jobs[i]
-			for kind := range twinDiffs(10) {
+			for kind := range twin.Diffs() {
 				for pl := 0; pl < 3; pl++ {
 					if !twinCase(l, dm.Symbols[j.s], j.b, j.c, kind, pl) {
 						return
